@@ -137,6 +137,11 @@ def main(arg=None):
                 results.append((mid, props[0], "stale"))
                 shutil.rmtree(d, ignore_errors=True)
                 continue
+        fam = [["C01", "C02", "C03", "C05", "C11", "C10", "C04"], ["C06", "C07", "C08", "C09", "C15", "C17", "C20"], ["C19"]]
+        own = list(props)
+        for f in fam:
+            if own[0] in f:
+                props = own + [x for x in f if x not in own]
         caught = None
         for prop in props:
             rc, viol, found, wall, out = run_check(prop, d)
@@ -148,10 +153,10 @@ def main(arg=None):
                 print(f"MUTANT {mid}: check {prop} ended with rc={rc}: {out[-400:]}")
         shutil.rmtree(d, ignore_errors=True)
         if caught:
-            print(f"MUTANT {mid}: KILLED by {caught[0]} in {caught[2]:.0f}s ({caught[1][:160]})")
+            print(f"MUTANT {mid}: KILLED by {caught[0]}{'' if caught[0] == own[0] else ' (not by its own check ' + own[0] + ')'} in {caught[2]:.0f}s ({caught[1][:160]})")
             results.append((mid, caught[0], "killed"))
         else:
-            print(f"MUTANT {mid}: SURVIVED quick check(s) {props}")
+            print(f"MUTANT {mid}: SURVIVED quick checks {props}")
             results.append((mid, props[0], "survived"))
         sys.stdout.flush()
     shutil.rmtree(os.path.join(env.scratch_base(), "verif-mut"), ignore_errors=True)
